@@ -183,6 +183,7 @@ class Sim:
         self.problems = []         # (key, expected, observed)
         self.frames = {}           # (bits,value) -> (tid, name, cmd)
         self.hang = False
+        self.stopped = False
         self.late = False
         self.waiting = False       # ended with callers legitimately waiting for an absent device
         self.connect_error = None
@@ -199,6 +200,8 @@ class Sim:
         return self.tid_of.get(t, "drv")
 
     def rec(self, who, what, *args):
+        if self.stopped:
+            return
         self.events.append((self.loop.time() if self.loop else 0.0, who, what) + args)
 
     def wire_write(self, bits, value, twice, seq=None):
@@ -377,7 +380,10 @@ class Sim:
             ch.append(("noise",))
         if self.loop.next_timer() is not None:
             absent = self.is_hid and not self.gw.present
-            if not (absent and b.get("absent_timers", 5) <= 0 and self.cfg.get("limit") is None):
+            late = (not self.is_hid) and bool(self.gw.pending) and not cfg.get("allow_late")
+            if late:
+                pass
+            elif not (absent and b.get("absent_timers", 5) <= 0 and self.cfg.get("limit") is None):
                 ch.append(("timer",))
         if self.is_hid:
             if self.gw.present and b.get("lose", 0) > 0 and self.hid_fd_open():
@@ -523,6 +529,7 @@ class Sim:
             self.apply(ch[i])
             self.steps += 1
         self.end_state = self.observe()
+        self.stopped = True        # what the tear-down cancels is not part of the trace
 
     async def _follow_up(self, n):
         """n further sends with the gateway answering at once; sequence numbers wrap"""
